@@ -1,5 +1,6 @@
 """Checks decided with the run-time machine (spec/ICCall.tla): model checking + replay + trace validation."""
 import json
+import os
 import random
 from typing import Any, Callable, Dict, Iterable, List, Optional, Set, Tuple
 
@@ -278,8 +279,33 @@ def random_unit(res: CheckResult, name: str, progs: List[dict], ic: Any, mode: s
                  trace_states=rv.distinct)
 
 
+def _run_in_fresh_interpreter(jobs: List[dict]) -> List[List[list]]:
+    """Run (program, schedule) jobs in a fresh interpreter that imports icontract before asyncio."""
+    import subprocess
+    import sys
+    import json as _json
+    import shutil
+    from icv import tlc
+    wd = tlc.scratch_dir("icv-imp-")
+    try:
+        jf = os.path.join(wd, "jobs.json")
+        with open(jf, "w") as fh:
+            _json.dump(jobs, fh)
+        env = dict(os.environ)
+        env["ICV_REPO_PATH"] = os.environ.get("ICV_REPO", "/repo")
+        env["ICV_REPO"] = env["ICV_REPO_PATH"]
+        p = subprocess.run([sys.executable, os.path.join(tlc.VERIF, "icv", "importorder_worker.py"), jf], env=env,
+                           stdout=subprocess.PIPE, stderr=subprocess.PIPE, timeout=1800, cwd=tlc.VERIF)
+        if p.returncode != 0:
+            raise MachineryError("import-order worker failed: " + p.stderr.decode()[-1500:])
+        txt = p.stdout.decode()
+        return _json.loads(txt[txt.index("["):])
+    finally:
+        shutil.rmtree(wd, ignore_errors=True)
+
+
 def conc_unit(res: CheckResult, name: str, progs: List[dict], ic: Any, mode: str, nsim: int,
-              rng: Optional[random.Random] = None) -> None:
+              rng: Optional[random.Random] = None, fresh_interpreter: bool = False) -> None:
     """Concurrent family: every interleaving model-checked (history hidden by a VIEW), sampled schedules replayed."""
     rng = rng or random.Random(res.seed)
     progs = F.number(progs)
@@ -305,6 +331,7 @@ def conc_unit(res: CheckResult, name: str, progs: List[dict], ic: Any, mode: str
     mism = []
     nrun = 0
     seen = set()
+    jobs = []
     for p in progs:
         for exp in logs.get(p["pid"], []):
             expn = [C.norm_expected(e) for e in exp]
@@ -312,7 +339,16 @@ def conc_unit(res: CheckResult, name: str, progs: List[dict], ic: Any, mode: str
             if key in seen:
                 continue
             seen.add(key)
-            act, rt = C.run_impl(p, ic, schedule=_sched_of(expn, mode), mode=mode, rng=rng)
+            jobs.append((p, expn))
+    acts = None
+    if fresh_interpreter:
+        acts = _run_in_fresh_interpreter([{"prog": p, "schedule": _sched_of(expn, mode)} for p, expn in jobs])
+    for n_job, (p, expn) in enumerate(jobs):
+        if True:
+            if acts is not None:
+                act = acts[n_job]
+            else:
+                act, rt = C.run_impl(p, ic, schedule=_sched_of(expn, mode), mode=mode, rng=rng)
             nrun += 1
             if not C.same_log(expn, act):
                 mism.append({"pid": p["pid"], "prog": p, "log": act, "expected": expn})
